@@ -302,6 +302,28 @@ func gen(t *rapid.T) Case {
 			c.Fault, c.Intact = "none", n
 			break
 		}
+		if rapid.Bool().Draw(t, "reallyCompressed") {
+			// message k really is compressed, only the header that would name
+			// the algorithm is missing (while the client advertises it for
+			// the response)
+			encoding = rapid.SampledFrom([]string{"gzip", "deflate"}).Draw(t, "hiddenEnc")
+			for i := range compress {
+				compress[i] = i == k
+			}
+			req = build()
+			var hdr []prog.KV
+			for _, kv := range kvs(req.Header) {
+				if !strings.EqualFold(kv.K, encHeader(c.Protocol, c.Kind)) {
+					hdr = append(hdr, kv)
+				}
+			}
+			acc := map[string]string{"connect": "Connect-Accept-Encoding"}[c.Protocol]
+			if acc == "" {
+				acc = "Grpc-Accept-Encoding"
+			}
+			c.Header, c.Body = setKV(hdr, acc, encoding), req.Body
+			break
+		}
 		encoding = ""
 		for i := range compress {
 			compress[i] = false
@@ -331,7 +353,14 @@ func gen(t *rapid.T) Case {
 	case "undecodable":
 		bad := []byte{0x0a, 0x05, 0x41} // field 1 length-delimited, declares 5 bytes, has 1
 		if c.Codec == "json" {
-			bad = []byte(rapid.SampledFrom([]string{`{"number":`, `{"nope":1}`, `[1,2]`, `{"number":"x"}`, `nul`}).Draw(t, "badjson"))
+			docs := []string{`{"number":`, `{"nope":1}`, `[1,2]`, `{"number":"x"}`, `nul`}
+			if unframed {
+				// an empty or blank body is not a JSON document (inside an
+				// envelope the library reads a zero-length payload as the
+				// zero message, which is its business)
+				docs = append(docs, "", "", " ", "\n")
+			}
+			bad = []byte(rapid.SampledFrom(docs).Draw(t, "badjson"))
 		}
 		msgs[k] = bad
 		compress[k] = compress[k] && encoding != ""
